@@ -27,6 +27,7 @@ type Profile struct {
 	LogsPerTxn   [2]int
 	SmallBlocks  bool
 	ManyNames    int // >0: extend the alphabet to this many names in some runs
+	HugeNames    int // >0: in some of those runs, this many names
 	ExpiryTimes  bool
 	MultiSpan    bool
 	RoleW        []map[string]int // per-task op weights (task i uses RoleW[i%len])
@@ -114,6 +115,11 @@ func (g *genCtx) txn() TxnSpec {
 	popular := 0
 	if g.p.PopularP > 0 && r.Bool(g.p.PopularP) {
 		nr = 20 + r.Intn(45)
+		if len(g.names) > 100 {
+			// enough ref blocks holding one object id for its position
+			// list to overflow a small object block (truncated list)
+			nr = 150 + r.Intn(len(g.names)-140)
+		}
 		popular = 1 + r.Intn(2)
 	}
 	for i := 0; i < nr; i++ {
@@ -256,7 +262,11 @@ func (g *genCtx) pickNames() {
 	}
 	if g.p.ManyNames > 0 && g.r.Bool(0.4) {
 		var ns []string
-		for i := 0; i < g.p.ManyNames; i++ {
+		n := g.p.ManyNames
+		if g.p.HugeNames > 0 && g.r.Bool(0.35) {
+			n = g.p.HugeNames
+		}
+		for i := 0; i < n; i++ {
 			ns = append(ns, fmt.Sprintf("refs/heads/n%02d", i))
 		}
 		g.names = ns
@@ -280,7 +290,7 @@ func schedSpec(r *simrt.Rng, est int) SchedSpec {
 		s.EstLen = est
 	}
 	s.LocalP = []float64{0, 0.1, 1}[r.Intn(3)]
-	for _, b := range []string{"after-lock-remove", "after-list-rename", "after-table-rename", "after-lock-create"} {
+	for _, b := range []string{"after-lock-remove", "after-list-rename", "after-table-rename", "after-lock-create", "after-list-read"} {
 		if r.Bool(0.3) {
 			s.Bias = append(s.Bias, b)
 		}
@@ -302,6 +312,9 @@ func GenTurn(prop string, seed uint64, p *Profile) *RunSpec {
 		ops = append(ops, OpSpec{Kind: OpOpen, H: h, Auto: r.Bool(p.AutoP)})
 	}
 	n := pickN(r, p.MinOps, p.MaxOps)
+	if len(g.names) > 100 && n > 4 {
+		n = 2 + r.Intn(3) // huge alphabets: few, large transactions
+	}
 	for i := 0; i < n; i++ {
 		ops = append(ops, g.op(r.Intn(nh)))
 	}
